@@ -11,6 +11,14 @@ claimed = {
              note="strconv/strings/time callees are used through assumed contracts (contracts/stdlib.spec); text produced by fmt/strconv is opaque. One known finding (Duration(MinInt64).String()).",
              ref="DESIGN.md §6 C12"),
 }
+claimed.update({
+ "C02": dict(text="Deductive proof of cedar.Authorize against the decision rule of the property (default deny, forbid overrides, erroring policies skipped; reasons and errors as sets with their positions), by loop invariants over an arbitrarily ordered enumeration of the policy collection; PolicySet.IsAuthorized is proved to be Authorize on the set's contents.",
+             note="'satisfied' is defined through the compiled BoolEvaler of the policy (link to the AST semantics is C01/C04). Policy ids yielded by a user iterator are assumed distinct. Trusted: Go map range semantics, iterator shape check (iter-canonical).",
+             ref="DESIGN.md §6 C02"),
+ "C20": dict(text="Deductive proof, per operation, that PolicySet behaves as the id->policy map p.policies (New, Get, Add, Remove, Map, All, IsAuthorized): refinement of a map model for every pre-state, hence for every finite history.",
+             note="Document loading (policyN ids, file names) and marshal order are not yet under contract; the zero PolicySet{} (nil map) is excluded by precondition.",
+             ref="DESIGN.md §6 C20"),
+})
 na = {}
 props = [json.loads(l) for l in open('properties.jsonl')]
 for p in props:
